@@ -190,6 +190,9 @@ async def _one_program(ctx, kind: str, seed: int, steps: int, weights: dict,
         # what the session under test has NOT been told yet about its selected mailbox
         dirty_flags = dirty_set = False
         known: list[int] = []           # UIDs it knows (as of its last synchronising command)
+        # finding C10-F4: the session renamed its own selected INBOX; its selection is stale
+        # by name, but APPEND to / STATUS of the new name still feeds it through the mailbox id
+        stale_real = None
 
         def last_dump():
             return stepsout[-1]['dump'] if stepsout else init
@@ -208,8 +211,16 @@ async def _one_program(ctx, kind: str, seed: int, steps: int, weights: dict,
             while queue and queue[0]['k'].startswith('w'):
                 wops.append(queue.pop(0))
             if not queue and interfere and k > 0 and rng.random() < interfere:
-                wops += [R.gen_wop(rng, env, ref, nextcid) for _ in range(rng.choice([1, 1, 2]))]
+                wops += [dict(R.gen_wop(rng, env, ref, nextcid), generated=True)
+                         for _ in range(rng.choice([1, 1, 2]))]
             for op in wops:
+                if op.pop('generated', False) and not free and op['k'] == 'wstore' and dirty_set \
+                        and ref.sel and env.names[op['box']] == ref.sel[0]:
+                    # discipline: no \Deleted on a message the session has not been told about
+                    # (whether its EXPUNGE / CLOSE removes such a message is not fixed by the RFC)
+                    op['uids'] = [u for u in op['uids'] if u in known]
+                    if not op['uids']:
+                        continue
                 if op['k'] == 'wappend' and 'cid' not in op:
                     op['cid'] = nextcid()
                 if 'seqs' in op:      # scenario: addressed by position in the reference mailbox
@@ -269,7 +280,20 @@ async def _one_program(ctx, kind: str, seed: int, steps: int, weights: dict,
                 cmd['uidv'] = next((b['uidv'] for b in dump if b['name'] == nm and not b.get('absent')), 0)
             # ---- monitors (against the property statement, via PyRef)
             was_ro = ref.sel is not None and ref.sel[1]
+            stale_named = stale_real is not None and cmd['k'] in ('append', 'status') \
+                and env.names[cmd['box']] == stale_real
+            if cmd['k'] == 'rename' and out['cond'] == 'OK' and env.names[cmd['from']] == 'INBOX' \
+                    and ref.sel is not None and ref.sel[0] == 'INBOX':
+                stale_real = env.names[cmd['to']]
+            elif cmd['k'] in ('select', 'close', 'create', 'delete', 'rename') and not stale_named:
+                stale_real = None
             want = ref.step(cmd, env.names)
+            if stale_named and (R.canon_out(out) != R.canon_out(want) or free):
+                st['known_deviation'] = True
+                st['ref_out'], st['ref_dump'] = want, ref.snapshot()
+                stepsout.append(st)
+                state['problems'].append(('response', 'stale_selection_fed_by_mailbox_id', ncmds() - 1, st))
+                break
             st['ref_out'] = want
             st['ref_dump'] = ref.snapshot()
             kk = ncmds()
@@ -423,8 +447,8 @@ def _drive(j: int):
     # up to a command that was not answered
     pure = sts
     for n, x in enumerate(sts):
-        if 'cmd' in x and x['out']['cond'] is None:
-            pure = sts[:n]
+        if 'cmd' in x and (x['out']['cond'] is None or x.get('known_deviation')):
+            pure = sts[:n]      # not answered / an open finding the model does not describe
             break
     return {'kind': kind, 'i': i, 'exc': None, 'init': init, 'sts': sts, 'problems': problems,
             'npure': len(pure), 'case': R.enc_case(env, init, pure) if pure else None}
@@ -712,6 +736,9 @@ def scenarios(kind: str) -> list:
                         se(False, ('all',)), X[0], _cm('copy', [1], 1), _cm('move', [1], 1), _app(1),
                         {'k': 'check'}, st(5), _sel(0)])
         out.append([_sel(0), rn(0, 5), {'k': 'close'}, _sel(5), _fetch(ALL, 2), _sel(0), _fetch(ALL, 2)])
+        # open finding C10-F4: APPEND to / STATUS of the new name still feeds the stale selection
+        out.append([_sel(0, True), rn(0, 5), _app(5, [S])])
+        out.append([_sel(0), rn(0, 5), st(5)])
     # read-only: every command after EXAMINE and in the read-only mailbox
     for first in ([_sel(0, True)], [_sel(2)] if kind == 'dict' else [_sel(2, True)]):
         out.append(first + [_store(ALL, 'add', [D]), _store(ALL, 'add', [S], True, True), X[0],
